@@ -224,6 +224,16 @@ Theorem C12_bandwidth_rules :
 Proof. exact Proofs.KdeGroups.G_bandwidth_rules. Qed.
 Print Assumptions C12_bandwidth_rules.
 
+(* Sample.Sorted, set on ascending data, changes nothing: KDE.PDF / KDE.CDF do not read the flag
+   (the model's kde record has no such field: the correspondence check runs every configuration
+   with and without it), and the bandwidth rules give the same squared scale estimate *)
+Theorem C12_sorted_flag_irrelevant : forall xs : list Q, (2 <= length xs)%nat -> Proofs.Quantile.ascending xs ->
+  bandwidth_silverman10 (Proofs.Quantile.marked_sorted xs) = bandwidth_silverman10 (Proofs.Quantile.unsorted xs) /\
+  exists v v' : Q, bandwidth_scott10 (Proofs.Quantile.marked_sorted xs) = BwPow10 v /\
+                   bandwidth_scott10 (Proofs.Quantile.unsorted xs) = BwPow10 v' /\ v == v'.
+Proof. exact Proofs.KdeBw.bandwidth_rules_sorted_flag. Qed.
+Print Assumptions C12_sorted_flag_irrelevant.
+
 (* a zero Bandwidth selects Scott's rule, once; a non-zero one is never touched *)
 Theorem C12_bandwidth_lazy : forall before scott : Q,
   (~ before == 0 -> bandwidth_after before scott = before) /\
